@@ -493,10 +493,19 @@ package dkg
 // wfForReshare: a record that is not Fresh and is offered a reshare proposal carries its last group (data invariant of the
 // DKG store: the record passed is the last finished one or Fresh, see Command / applyPacketToState); the decoded
 // participant lists are separate arrays (same assumption as validateReshareForRemainers)
-//@ pred wfForReshare(cur, terms) := (cur.State != Fresh && terms != nil && terms.Epoch != 1 ==> cur.FinalGroup != nil) && (terms != nil && len(terms.Leaving) > 0 ==> ref(terms.Remaining) != ref(terms.Leaving))
+// recordInv: what the mutators establish for every record a node can hold: only a completed epoch carries group and share
+// (Proposed / Proposing build records without them; Complete sets both). wfTerms: a proposal whose message fields are present
+// (a decodable packet may leave them out: such packets end in a contained panic, which C14 covers).
+//@ pred recordInv(d) := d != nil && (d.State == Complete ==> d.FinalGroup != nil && d.KeyShare != nil) && (d.FinalGroup != nil ==> d.FinalGroup.Scheme != nil)
+//@ pred wfTerms(t) := t != nil && t.Leader != nil && t.Timeout != nil && t.GenesisTime != nil
+//@ pred wfForReshare(cur, terms) := (terms != nil && len(terms.Leaving) > 0 ==> ref(terms.Remaining) != ref(terms.Leaving))
 //@ func ValidateProposal(currentState, terms) (err)
 //@   props C08
+//@   flags nopanic=C08
 //@   requires currentState != nil
+// (the callers fall back to the last finished record when the stored attempt is Aborted / TimedOut / Failed, and the two
+// proposal mutators call this only after the transition table allowed the move)
+//@   requires [C08] recordInv(currentState) && (terms != nil ==> wfTerms(terms)) && !terminal(currentState.State) && (legal(currentState.State, Proposed) || legal(currentState.State, Proposing))
 //@   requires [C08] wfForReshare(currentState, terms)
 //@   ensures [C08:validation-leaves-the-terms-alone] terms != nil ==> terms.BeaconID == old(terms.BeaconID) && terms.Epoch == old(terms.Epoch) && terms.SchemeID == old(terms.SchemeID) && terms.Threshold == old(terms.Threshold) && terms.GenesisSeed == old(terms.GenesisSeed) && terms.Leader == old(terms.Leader) && terms.Remaining == old(terms.Remaining) && terms.Joining == old(terms.Joining) && terms.Leaving == old(terms.Leaving)
 //@   ensures [C08:validation-leaves-the-record-alone] sameRecord(currentState)
@@ -508,6 +517,7 @@ package dkg
 //@ func (*DBState).Proposed(d, me, terms, metadata) (res, err)
 //@   props C08 C09
 //@   requires metadata != nil
+//@   requires [C08] recordInv(d) && wfTerms(terms) && !terminal(d.State)
 //@   requires [C08] wfForReshare(d, terms)
 //@   ensures [C09:only-the-leader-named-in-the-terms-proposes] err == nil ==> old(terms != nil && terms.Leader != nil && metadata.Address == terms.Leader.Address)
 //@   ensures [C08:Proposed-legal] err == nil ==> res != nil && isnew(res) && res.State == Proposed && legal(d.State, Proposed) && res.BeaconID == d.BeaconID && res.Epoch == terms.Epoch && epochRule(d, terms) && thresholdInRange(terms)
@@ -517,6 +527,7 @@ package dkg
 
 //@ func (*DBState).Proposing(d, me, terms) (res, err)
 //@   props C08 C09
+//@   requires [C08] recordInv(d) && wfTerms(terms) && !terminal(d.State)
 //@   requires [C08] wfForReshare(d, terms)
 //@   ensures [C09:only-the-leader-itself-starts-a-proposal] err == nil ==> terms != nil && terms.Leader == me
 //@   ensures [C08:Proposing-legal] err == nil ==> res != nil && isnew(res) && res.State == Proposing && legal(d.State, Proposing) && res.BeaconID == d.BeaconID && res.Epoch == terms.Epoch && epochRule(d, terms) && thresholdInRange(terms) && (d.State == Fresh ==> terms.Epoch <= 1)
